@@ -21,6 +21,21 @@ pub fn config(n: u64, sync: bool) -> Config {
     }
 }
 
+/// parse a `cfg kind=.. n=.. sync=.. pre=.. scan=.. verify=.. fail=..` line
+pub fn config_full(line: &str) -> Config {
+    let get = |k: &str, d: u64| -> u64 {
+        line.split(' ').find_map(|t| t.strip_prefix(&format!("{k}="))).and_then(|v| v.parse().ok()).unwrap_or(d)
+    };
+    Config {
+        sync_mode: if get("sync", 1) == 1 { SyncMode::Sync } else { SyncMode::Async },
+        num_ops_per_wal: NonZeroU64::new(get("n", 10_000)).unwrap(),
+        pre_create_cas_dirs: get("pre", 0) == 1,
+        scan_orphans_on_startup: get("scan", 1) == 1,
+        verify_blob_integrity: get("verify", 0) == 1,
+        fail_on_integrity_errors: get("fail", 1) == 1,
+    }
+}
+
 fn one(cas: &Cas<Vec<u8>>, key: &Vec<u8>, content: &[u8], s: u64, e: u64, out: &mut Out) {
     let l = content.len() as u64;
     let (r, peak, largest) = measure(|| cas.get_range(key, s, e));
